@@ -1,0 +1,34 @@
+//go:build verif
+
+package blockdb
+
+// Machine-checked contracts for /verif/govc (contract-based deductive verification).
+// This file contains comments only; it is compiled only with -tags verif and adds no code.
+
+// ---------------------------------------------------------------- block DB indexes (C26)
+
+// A lookup in the fixed-key array index always returns: the binary search interval shrinks on
+// every iteration. A key that is not found yields (-1, ErrKeyNotFound).
+//@ func (*fixedKeyArrayIndex).GetOffset
+//@   prop C26
+//@   requires fkai != nil && fkai.keylen > 0
+//@   ensures result1 != nil ==> result0 == -1
+//@   loop 1 header "for lo, hi := 0, numKeys-1; lo <= hi;"
+//@   loop 1 invariant 0 <= lo && hi < numKeys && numKeys <= len(fkai.buffer)
+//@   loop 1 decreases hi - lo + 1
+
+//@ func (*mapIndex).SetOffset
+//@   prop C26
+//@   requires mi != nil && mi.index != nil && held(mi.mutex) == 0 && rheld(mi.mutex) == 0
+//@   ensures result == nil && key in mi.index && mi.index[key] == offset
+//@   ensures forall k string :: k != key ==> ((k in mi.index) == old(k in mi.index)) && mi.index[k] == old(mi.index[k])
+//@   lock-balanced mi.mutex
+
+//@ func (*mapIndex).GetOffset
+//@   prop C26
+//@   requires mi != nil && held(mi.mutex) == 0
+//@   ensures (result1 == nil) <==> (key in mi.index)
+//@   ensures result1 == nil ==> result0 == mi.index[key]
+//@   ensures result1 != nil ==> result0 == -1 && result1 == ErrKeyNotFound
+//@   ensures forall k string :: ((k in mi.index) == old(k in mi.index)) && mi.index[k] == old(mi.index[k])
+//@   lock-balanced mi.mutex
